@@ -5,8 +5,8 @@ namespace LyModel.Val.InstId
 open LyModel LyModel.Path
 
 /-- one printed segment: `/`, the module prefix and `:` if `p`, the node name, the predicates -/
-def seg (c : CStep) (p : Bool) : Bytes :=
-  [47] ++ (if p then c.mod ++ [58] else []) ++ c.name ++ canonPred c.pred
+def seg (ks : Bool) (c : CStep) (p : Bool) : Bytes :=
+  [47] ++ (if p then c.mod ++ [58] else []) ++ c.name ++ canonPredWith ks c.keyNames c.pred
 
 /-- per segment: does its module differ from the module printed last (`prev`; `none` before the first segment) -/
 def modChanges : Option Bytes → List CStep → List Bool
@@ -22,11 +22,11 @@ theorem canonName_eq (prev : Option Bytes) (c : CStep) :
   unfold canonName
   by_cases h : prev = some c.mod <;> simp [h]
 
-theorem canonSteps_eq_segs : ∀ (cs : List CStep) (prev : Option Bytes),
-    canonSteps prev cs = (List.zipWith seg cs (modChanges prev cs)).flatten
+theorem canonSteps_eq_segs (ks : Bool) : ∀ (cs : List CStep) (prev : Option Bytes),
+    canonStepsWith ks prev cs = (List.zipWith (seg ks) cs (modChanges prev cs)).flatten
   | [], _ => rfl
   | c :: r, prev => by
-    simp only [canonSteps, modChanges, List.zipWith_cons_cons, List.flatten_cons, canonSteps_eq_segs r, canonName_eq, seg,
+    simp only [canonStepsWith, modChanges, List.zipWith_cons_cons, List.flatten_cons, canonSteps_eq_segs ks r, canonName_eq, seg,
       List.append_assoc]
 
 theorem modChanges_head (c : CStep) (r : List CStep) (prev : Option Bytes) :
@@ -57,8 +57,11 @@ def result (r : Except IErr (List CStep)) : Sum IErr (List CStep) :=
   | .ok v => .inr v
   | .error e => .inl e
 
+theorem cmpEqWith_iff (ks : Bool) (a b : List CStep) : cmpEqInstIdWith ks a b = true ↔ canonInstIdWith ks a = canonInstIdWith ks b := by
+  simp [cmpEqInstIdWith]
+
 theorem cmpEq_iff (a b : List CStep) : cmpEqInstId a b = true ↔ canonInstId a = canonInstId b := by
-  simp [cmpEqInstId]
+  simp [cmpEqInstId, cmpEqInstIdWith, canonInstId]
 
 theorem sort_zero_iff (a b : List CStep) : sortInstId a b = 0 ↔ canonInstId a = canonInstId b :=
   strcmp_zero _ _
@@ -69,9 +72,53 @@ theorem sort_trans (a b c : List CStep) (h1 : sortInstId a b ≤ 0) (h2 : sortIn
   strcmp_trans _ _ _ h1 h2
 
 /-- the canonical string of a non-empty path starts with `/` -/
-theorem canonSteps_head (c : CStep) (r : List CStep) (prev : Option Bytes) : (canonSteps prev (c :: r)).head? = some 47 := by
-  simp only [canonSteps, canonName]
+theorem canonSteps_head (ks : Bool) (c : CStep) (r : List CStep) (prev : Option Bytes) :
+    (canonStepsWith ks prev (c :: r)).head? = some 47 := by
+  simp only [canonStepsWith, canonName]
   split <;> rfl
+
+/-! ### the value stores fail with `Semantic` only -/
+
+theorem canonVal_err {ty : Option Ty} {v : Bytes} {e : IErr} (h : canonVal ty v = .error e) : e = .Semantic := by
+  unfold canonVal at h
+  split at h
+  · cases h; rfl
+  · split at h
+    · cases h; rfl
+    · cases h
+
+theorem typeKeys_err (t : TNode) : ∀ (kv : List (Bytes × Bytes)) (e : IErr), typeKeys t kv = .error e → e = .Semantic
+  | [], _, h => by cases h
+  | (k, v) :: r, e, h => by
+    unfold typeKeys at h
+    split at h
+    · rename_i e' hc; cases h; exact canonVal_err hc
+    · split at h
+      · rename_i e' hr; cases h; exact typeKeys_err t r _ hr
+      · cases h
+
+theorem typePred_err (t : TNode) (p : CPred) (e : IErr) (h : typePred t p = .error e) : e = .Semantic := by
+  unfold typePred at h
+  split at h
+  · split at h
+    · rename_i e' hk; cases h; exact typeKeys_err t _ _ hk
+    · cases h
+  · split at h
+    · rename_i e' hc; cases h; exact canonVal_err hc
+    · cases h
+  · cases h
+
+theorem typeSteps_err : ∀ (cs : List CStep) (sibs : List TNode) (e : IErr), typeSteps sibs cs = .error e → e = .Semantic
+  | [], _, _, h => by cases h
+  | c :: r, sibs, e, h => by
+    unfold typeSteps at h
+    split at h
+    · cases h; rfl
+    · split at h
+      · rename_i e' hp; cases h; exact typePred_err _ _ _ hp
+      · split at h
+        · rename_i e' hr; cases h; exact typeSteps_err r _ _ hr
+        · cases h
 
 /-- every step the compiler produces carries the module and name of a schema node it found -/
 theorem compileSteps_ne_nil : ∀ (steps : List Step) (cur : List SNode) (pm : Option Bytes) (prev : Option CStep) (cs : List CStep),
@@ -90,5 +137,83 @@ theorem compileSteps_ne_nil : ∀ (steps : List Step) (cur : List SNode) (pm : O
           · split at h
             · cases h
             · cases h; simp
+
+/-! ### key predicates in schema order: the order they were written in does not matter (F422 repaired) -/
+
+/-- the key names of a predicate are pairwise different (`ly_path_check_predicate`: "Duplicate predicate key") -/
+def KeysDistinct : List CStep → Prop
+  | [] => True
+  | c :: r => (match c.pred with | .keys kv => (kv.map (·.1)).Nodup | _ => True) ∧ KeysDistinct r
+
+theorem find_key_mem : ∀ (l : List (Bytes × Bytes)) (k : Bytes) (x : Bytes × Bytes), (l.map (·.1)).Nodup → x ∈ l → x.1 = k →
+    l.find? (fun p => p.1 == k) = some x
+  | [], _, _, _, hx, _ => by cases hx
+  | y :: r, k, x, hn, hx, hk => by
+    simp only [List.map_cons, List.nodup_cons] at hn
+    simp only [List.find?_cons]
+    rcases List.mem_cons.mp hx with rfl | hx'
+    · simp [hk]
+    · have hne : (y.1 == k) = false := by
+        apply Bool.eq_false_iff.mpr
+        intro h
+        have : y.1 = x.1 := by rw [hk]; exact eq_of_beq h
+        exact hn.1 (this ▸ List.mem_map_of_mem hx')
+      rw [hne]
+      exact find_key_mem r k x hn.2 hx' hk
+
+theorem find_key_perm {l1 l2 : List (Bytes × Bytes)} (hp : l1.Perm l2) (hn : (l1.map (·.1)).Nodup) (k : Bytes) :
+    l1.find? (fun p => p.1 == k) = l2.find? (fun p => p.1 == k) := by
+  have hn2 : (l2.map (·.1)).Nodup := (hp.map _).nodup_iff.mp hn
+  cases h1 : l1.find? (fun p => p.1 == k) with
+  | some x =>
+    have hx := List.mem_of_find?_eq_some h1
+    have hk : x.1 = k := eq_of_beq (by simpa using List.find?_some h1)
+    exact (find_key_mem l2 k x hn2 (hp.mem_iff.mp hx) hk).symm
+  | none =>
+    cases h2 : l2.find? (fun p => p.1 == k) with
+    | none => rfl
+    | some x =>
+      have hx := List.mem_of_find?_eq_some h2
+      have hk : x.1 = k := eq_of_beq (by simpa using List.find?_some h2)
+      rw [find_key_mem l1 k x hn (hp.mem_iff.mpr hx) hk] at h1
+      cases h1
+
+theorem orderKeys_perm {l1 l2 : List (Bytes × Bytes)} (hp : l1.Perm l2) (hn : (l1.map (·.1)).Nodup) (names : List Bytes) :
+    orderKeys true names l1 = orderKeys true names l2 := by
+  simp only [orderKeys, if_true]
+  congr 1
+  funext k
+  exact find_key_perm hp hn k
+
+/-! ### a path without variable references is compiled as it is -/
+
+theorem devarPred_noVar (p : Pred) (h : predHasVar p = false) : devarPred p = p := by
+  cases p with
+  | keys kv =>
+    simp only [predHasVar, List.any_eq_false] at h
+    simp only [devarPred]
+    congr 1
+    have : ∀ (l : List (Bytes × PVal)), (∀ x ∈ l, ¬ PVal.isVar x.2 = true) → l.map (fun p => (p.1, devarVal p.2)) = l := by
+      intro l
+      induction l with
+      | nil => intro _; rfl
+      | cons x r ih =>
+        intro hl
+        have hx := hl x (List.mem_cons_self ..)
+        have hr := ih (fun y hy => hl y (List.mem_cons_of_mem _ hy))
+        obtain ⟨k, v⟩ := x
+        cases v <;> simp_all [devarVal, PVal.isVar]
+    exact this kv h
+  | none => rfl
+  | dot v => rfl
+  | pos n => rfl
+
+theorem devar_noVar : ∀ (steps : List Step), (∀ st ∈ steps, predHasVar st.pred = false) → devar steps = steps
+  | [], _ => rfl
+  | st :: r, h => by
+    have h1 := devarPred_noVar st.pred (h st (List.mem_cons_self ..))
+    have h2 := devar_noVar r (fun y hy => h y (List.mem_cons_of_mem _ hy))
+    unfold devar at h2 ⊢
+    simp only [List.map_cons, h1, h2]
 
 end LyModel.Val.InstId
